@@ -46,7 +46,8 @@ def lanes : List (String × (List String → String)) := [
   ("c18ct", laneCt),
   ("c18bind", laneBind),
   ("c18pipe", lanePipe),
-  ("c18clone", laneClone)
+  ("c18clone", laneClone),
+  ("c18consume", laneConsume)
 ]
 
 end Req.Driver.L.C18
